@@ -139,9 +139,18 @@ contract(F + "Program.match",
         "input_exhausted": "implies(result is not None, view == [])",
         "scope.ret": "scope_stack == old(scope_stack)",
     },
+    # C07: between the last failed alternative and the failure that Program.__new__ turns into the FortranSyntaxError the
+    # reader is not advanced: the message is built from reader.linecount / reader.source_lines as that attempt left them
+    snapshots={"attempt": "result = BlockBase.match"},
+    ensures_local={
+        "failure_leaves_the_reader_where_the_last_attempt_ended.linecount@ret0": "reader.linecount == at('attempt', reader.linecount)",
+        "failure_leaves_the_reader_where_the_last_attempt_ended.lines@ret0": "reader.source_lines == at('attempt', reader.source_lines)",
+        "failure_leaves_the_reader_where_the_last_attempt_ended.items@ret0": "view == at('attempt', view)",
+    },
+    clause_props={"failure_leaves_the_reader_where_the_last_attempt_ended": ["C07"]},
     raises={"*": {"scope.exc": "scope_stack == old(scope_stack)"}},
     loops={0: dict(invariant={"accounted": "old(view) == cons(content) + view",
                               "scope": "scope_stack == old(scope_stack) and REP(SYMBOL_TABLES)"},
                    types={"obj": "ref:Base?", "next_line": "ref"})},
-    serves=["C02", "C08"],
+    serves=["C02", "C07", "C08", "C11"],
 )
